@@ -211,15 +211,28 @@ def _one_request(ctx, case, w, rq, model, recv, dust, netinfo, consumed=None):
     fee = rq.get('fee')
     kwargs = {}
     nk = getattr(w, '_verif_nk', {})
+    ikw = {}
+    if rq.get('explicit_inputs') and op in ('create', 'send') and model:
+        # the caller names the unspent outputs to spend (the documented tuple forms: (txid, n) and
+        # (txid, n, key_id, value)); repeated picks name the same outpoint twice
+        ops_sorted = sorted(model)
+        picks = [ops_sorted[i % len(ops_sorted)] for i in rq['explicit_inputs']]
+        if rq.get('explicit_form') == 'full':
+            listing = dict(((u['txid'], u['output_n']), u) for u in w.utxos(min_confirms=0, **nk))
+            ikw['input_arr'] = [(p_[0], p_[1], listing[p_]['key_id'], listing[p_]['value']) if p_ in listing else p_
+                                for p_ in picks]
+        else:
+            ikw['input_arr'] = list(picks)
+        ctx.klass('explicit_inputs.%s' % ('repeated' if len(set(picks)) < len(picks) else 'distinct'))
     try:
         if op == 'create':
             t = w.transaction_create(outputs, fee=fee, min_confirms=min_conf, max_utxos=rq.get('max_utxos'),
                                      number_of_change_outputs=rq.get('n_change', 1),
-                                     replace_by_fee=rq.get('rbf', False), **nk)
+                                     replace_by_fee=rq.get('rbf', False), **nk, **ikw)
         elif op == 'send':
             t = w.send(outputs, fee=fee, min_confirms=min_conf, max_utxos=rq.get('max_utxos'),
                        number_of_change_outputs=rq.get('n_change', 1), replace_by_fee=rq.get('rbf', False),
-                       broadcast=broadcast, **nk)
+                       broadcast=broadcast, **nk, **ikw)
         elif op == 'send_to':
             t = w.send_to(outputs[0][0], outputs[0][1], fee=fee, min_confirms=min_conf,
                           number_of_change_outputs=rq.get('n_change', 1), replace_by_fee=rq.get('rbf', False),
@@ -526,6 +539,9 @@ def _strategy(ctx):
             'rbf': st.booleans(),
             'broadcast': st.sampled_from([False, False, True]),
             'sweep_list': st.booleans(),
+            'explicit_inputs': st.one_of(st.none(), st.none(), st.none(),
+                                         st.lists(st.integers(0, 9), min_size=1, max_size=3)),
+            'explicit_form': st.sampled_from(['pair', 'full']),
             'bump': st.one_of(st.none(), st.fixed_dictionaries({'mode': st.sampled_from(['fee', 'extra', 'default', 'rel', 'rel']),
                                                                 'num': st.sampled_from([1, 2, 3, 4, 5, 7]),
                                                                 'amount': st.sampled_from([1, 500, 5000, 10 ** 6])})),
